@@ -1,6 +1,7 @@
 package main
 
 import (
+	"os"
 	"fmt"
 	"go/constant"
 	"go/types"
@@ -735,6 +736,13 @@ func (fr *Frame) specCall(c *ECall, env *SpecEnv) Val {
 		return Val{S: sApp("minv", arg(0), arg(1)), Typ: tInt}
 	case "gcd":
 		return Val{S: sApp("gcdf", arg(0), arg(1)), Typ: tInt}
+	case "prod":
+		// the product as the program's own big.Int / machine multiplications are modelled (uninterpreted for two
+		// non-literal factors unless the contract is nonlinear): lets a post-condition name a value computed by Mul
+		return Val{S: fr.mulTerm(arg(0), arg(1)), Typ: tInt}
+	case "rem":
+		// Euclidean remainder as big.Int.Mod is modelled (uninterpreted for a non-literal modulus)
+		return Val{S: fr.divTerm("mod", arg(0), arg(1)), Typ: tInt}
 	case "jacobi":
 		return Val{S: sApp("jacobi", arg(0), arg(1)), Typ: tInt}
 	case "sha256", "os2ip", "bytelen":
@@ -1033,6 +1041,11 @@ func (fr *Frame) specFold(fd *Fold, c *ECall, env *SpecEnv) Val {
 	saved := fc.recording
 	fc.recording = &rec
 	last := elemAt(sApp("-", hi, "1"))
+	modTerm := ""
+	if fd.Op == "mulmod" {
+		e2 := benv
+		modTerm = fr.scalar(fr.evalSpec(fd.Mod, &e2))
+	}
 	fc.recording = saved
 	seen := map[string]bool{}
 	var heaps []string
@@ -1079,17 +1092,47 @@ func (fr *Frame) specFold(fd *Fold, c *ECall, env *SpecEnv) Val {
 			w := fc.freshConst("foldw", "Int")
 			e1 := prev.elemAt(w)
 			e2 := elemAt(w)
-			fc.permFact(sImp(sAnd(sEq(prev.lo, lo), sEq(prev.hi, hiTerm)), sOr(sAnd(sApp("<=", lo, w), sApp("<", w, hiTerm), sNot(sEq(e1, e2))), sEq(prev.term, term))))
+			differs := sNot(sEq(e1, e2))
+			if len(prev.hlist) == len(hterms) {
+				if ds := readDiffs(e1, prev.hlist, hterms); len(ds) > 0 && len(ds) <= 12 {
+					differs = sOr(ds...)
+				}
+			}
+			fc.permFact(sImp(sAnd(sEq(prev.lo, lo), sEq(prev.hi, hiTerm)), sOr(sAnd(sApp("<=", lo, w), sApp("<", w, hiTerm), differs), sEq(prev.term, term))))
 		}
 		if fc.foldTerms == nil {
 			fc.foldTerms = map[string][]foldRec{}
 		}
 		if len(fc.foldTerms[ck]) < 8 {
-			fc.foldTerms[ck] = append(fc.foldTerms[ck], foldRec{term: term, lo: lo, hi: hiTerm, heaps: hkey, elemAt: elemAt})
+			fc.foldTerms[ck] = append(fc.foldTerms[ck], foldRec{term: term, lo: lo, hi: hiTerm, heaps: hkey, hlist: append([]string{}, hterms...), elemAt: elemAt})
 		}
 	}
 	register(t, hi)
 	register(mk(lo, sApp("-", hi, "1")), sApp("-", hi, "1"))
+	// the same fold over an older heap version that differs only in rows of unescaped local objects
+	if !reBoundVar.MatchString(t) && !fc.declSet["foldbase:"+t] {
+		fc.declSet["foldbase:"+t] = true
+		argsJoined := strings.Join(argTerms, " ") + " " + lo + " " + hi
+		base := make([]string, len(hterms))
+		changed := false
+		for i, h := range hterms {
+			base[i] = fc.foldBase(h, argsJoined)
+			if base[i] != h {
+				changed = true
+			}
+		}
+		if os.Getenv("GVC_DEBUG_FOLD") != "" {
+			fmt.Fprintf(os.Stderr, "foldbase %v -> %v locals=%v storeRef=%v\n", hterms, base, sortedKeys(fc.localRefs), fc.storeRef)
+		}
+		if changed {
+			all := append(append([]string{}, base...), argTerms...)
+			tb := sApp(fname, append(all, lo, hi)...)
+			fc.permFact(sEq(t, tb))
+			all2 := append(append([]string{}, base...), argTerms...)
+			tb1 := sApp(fname, append(all2, lo, sApp("-", hi, "1"))...)
+			fc.permFact(sEq(mk(lo, sApp("-", hi, "1")), tb1))
+		}
+	}
 	if !reBoundVar.MatchString(t) && !fc.declSet["foldfact:"+t] {
 		fc.declSet["foldfact:"+t] = true
 		unit := "1"
@@ -1097,6 +1140,9 @@ func (fr *Frame) specFold(fd *Fold, c *ECall, env *SpecEnv) Val {
 		prev := mk(lo, sApp("-", hi, "1"))
 		if fd.Op == "mul" {
 			step = fr.mulTerm(prev, last)
+		} else if fd.Op == "mulmod" {
+			// product reduced at every step, as the code computes it: r = (r * elem) mod m
+			step = fr.divTerm("mod", fr.mulTerm(prev, last), modTerm)
 		} else {
 			unit = "0"
 			step = sApp("+", prev, last)
@@ -1111,5 +1157,78 @@ type foldRec struct {
 	lo     string
 	hi     string
 	heaps  string
+	hlist  []string
 	elemAt func(string) string
+}
+
+// replaceSym replaces whole-symbol occurrences of old by new in an SMT term
+func replaceSym(t, old, new string) string {
+	var sb strings.Builder
+	for {
+		i := strings.Index(t, old)
+		if i < 0 {
+			sb.WriteString(t)
+			return sb.String()
+		}
+		j := i + len(old)
+		boundary := (i == 0 || strings.ContainsRune("( ", rune(t[i-1]))) && (j == len(t) || strings.ContainsRune(") ", rune(t[j])))
+		sb.WriteString(t[:i])
+		if boundary {
+			sb.WriteString(new)
+		} else {
+			sb.WriteString(old)
+		}
+		t = t[j:]
+	}
+}
+
+// readDiffs: the element e1 (heaps h1) and e2 (heaps h2) of a fold are the same expression over two heap
+// states. They can only differ if some heap read differs; the disjunction of those differences is implied by
+// e1 != e2 and is much easier for a solver than the disequality of the two whole terms.
+func readDiffs(e1 string, h1, h2 []string) []string {
+	var out []string
+	seen := map[string]bool{}
+	ren := func(t string) string {
+		for i := range h1 {
+			if h1[i] != h2[i] {
+				t = replaceSym(t, h1[i], h2[i])
+			}
+		}
+		return t
+	}
+	for i := range h1 {
+		if h1[i] == h2[i] {
+			continue
+		}
+		pat := "(select " + h1[i] + " "
+		pat2 := "(select (select " + h1[i] + " "
+		for _, p := range []string{pat, pat2} {
+			from := 0
+			for {
+				k := strings.Index(e1[from:], p)
+				if k < 0 {
+					break
+				}
+				k += from
+				d, j := 0, k
+				for ; j < len(e1); j++ {
+					if e1[j] == '(' {
+						d++
+					} else if e1[j] == ')' {
+						d--
+						if d == 0 {
+							break
+						}
+					}
+				}
+				sub := e1[k : j+1]
+				if !seen[sub] {
+					seen[sub] = true
+					out = append(out, sNot(sEq(sub, ren(sub))))
+				}
+				from = k + 1
+			}
+		}
+	}
+	return out
 }
